@@ -421,7 +421,7 @@ Parse(d) == ParseFrom(Empty, d, 1)
 
 ---------------------------------------------------------------------------
 (* alphabets that a configuration file cannot spell (backslash) *)
-R5 == {"[a]: /&amp;amp;", "[a]: /\\\\*", "[a]: /u '\\&lt;'", "[a]: /u '&amp;lt;'", "[a]", "a", "", "\\[a]", "[a] &amp;lt; \\&amp;", "> [a]", "# [a]"}      \* escapes and references in definitions
+R5 == {"[a]: /&amp;amp;", "[a]: /\\\\*", "[a]: /u '\\&lt;'", "[a]: /u '&amp;lt;'", "[a]", "a", "", "\\[a]", "[a] &amp;lt; \\&amp;", "> [a]", "# [a]", "```\\&amp;", "```&lt;"}      \* escapes and references in definitions
 W1 == {"a", "a  ", "a ", "a\\", "===  ", "---  ", "```  ", "# a  ", "> a  ", "- a  ", "", "  ", "# a #  ", "***  "}
 
 (* the behaviour: one action per line read.  Exhaustive exploration visits every line sequence up to MaxLines (sharded by the
@@ -465,7 +465,7 @@ Loose(s, l) == LET items == AllKids(s, l) IN Gap(s, items) \/ \E i \in DOMAIN it
 RECURSIVE StripTrailingBlank(_)
 StripTrailingBlank(ls) == IF ls # << >> /\ IsBlank(ls[Len(ls)]) THEN StripTrailingBlank(SubSeq(ls, 1, Len(ls) - 1)) ELSE ls
 
-CodeHtml(info, body) == "<pre><code" \o (IF info = "" THEN "" ELSE " class=\"language-" \o Esc(info) \o "\"") \o ">"
+CodeHtml(info, body) == "<pre><code" \o (IF info = "" THEN "" ELSE " class=\"language-" \o Esc(Unescape(info)) \o "\"") \o ">"
                         \o Esc(Join(body, "\n")) \o (IF body = << >> THEN "" ELSE "\n") \o "</code></pre>"
 
 RECURSIVE HtmlOf(_, _, _)
